@@ -1258,8 +1258,9 @@ func (b *broker) subEventHistory(msg *wamp.Invocation) wamp.Message {
 						}
 					}
 
-					eventTopic, ok := entry.event.Details["topic"]
-					if len(topicUri) > 0 && (!ok || eventTopic != topicUri) {
+					// Compare with the topic of the publication itself: events
+					// of an exact subscription carry no topic detail.
+					if len(topicUri) > 0 && entry.publication.Topic != topicUri {
 						continue
 					}
 
